@@ -106,6 +106,12 @@ func GenImport(r *simrt.Rand, faultsOK bool) *ImportProg {
 			if r.Chance(1, 2) {
 				all = append(all, "h")
 			}
+			if r.Chance(1, 5) {
+				// __all__ names something the module does not define: the star
+				// import fails (AttributeError) and must not leave that name bound
+				k := r.Intn(len(all) + 1)
+				all = append(all[:k], append([]string{"ghost"}, all[k:]...)...)
+			}
 			m.All = all
 		}
 		nb := r.Intn(5)
@@ -331,7 +337,7 @@ func renderImportStmt(b *strings.Builder, s ImportStmt, me string) {
 		if s.Form == "star" {
 			// a star import must not clobber the importer's own identity
 			fmt.Fprintf(b, "log(%s, \"star-name\", __name__)\n", tag)
-			for _, n := range []string{"x", "_p", "h", "val", "tail", "extra"} {
+			for _, n := range []string{"x", "_p", "h", "val", "tail", "extra", "ghost"} {
 				fmt.Fprintf(b, "try:\n    log(%s, \"star\", \"%s\", %s)\nexcept NameError:\n    log(%s, \"star\", \"%s\", \"unbound\")\n", tag, n, n, tag, n)
 			}
 		}
